@@ -18,7 +18,7 @@ import time
 from .. import common, ptydrv
 
 ALPHA = [' ', "'", '"', '$', '*', '?', '[', ']', '{', '}', ',', '~', '#', '|', '&', ';', '<', '>', '(', ')', '\\', '!', '`', '=', '%', '^', 'é']
-CTX = {'U': '', 'S': "'", 'D': '"'}
+CTX = {'U': '', 'S': "'", 'D': '"', 'C': '', 'CS': "'", 'CD': '"'}
 # where the entry lives and how that is typed in front of the prefix: working directory, sub-directory, home (~), variable
 LOCS = [('cwd', ''), ('subdirectory', 'sd/'), ('home', '~/'), ('variable', '$VDIR/'), ('subdirectory-with-blank', 's d/')]
 
@@ -69,7 +69,7 @@ def _run_batch(job):
         entries = []
         for pre, name in zip(prefixes(), names):
             full = pre + name
-            if ctx == 'C':
+            if ctx in ('C', 'CS', 'CD'):
                 os.makedirs(os.path.join(where, full))
                 with open(os.path.join(where, full, 'child'), 'w') as f:
                     f.write('x')
@@ -93,8 +93,8 @@ def _run_batch(job):
             nrec = len(s.records())
             nprompt = s.prompts()
             typed_loc = LOCS[loc][1].replace(' ', '\\ ') if ctx in ('U', 'C') else LOCS[loc][1]     # a blank is typed escaped outside quotes
-            if ctx == 'C':
-                s.send('cd ' + typed_loc + pre + '\t')
+            if ctx in ('C', 'CS', 'CD'):
+                s.send('cd ' + CTX[ctx] + typed_loc + pre + '\t')
             else:
                 s.send('vh-argv ' + CTX[ctx] + typed_loc + pre + '\t')
             settle(s)
@@ -110,7 +110,7 @@ def _run_batch(job):
                     s.close()
                     s = None
                 continue
-            if ctx == 'C':
+            if ctx in ('C', 'CS', 'CD'):
                 n2 = s.prompts()
                 s.send('vh-argv PROBE\r')
                 s.wait(lambda: s.prompts() > n2, 3.0)
@@ -192,6 +192,8 @@ def run(rep, tier):
     structured = ['`x`', '$(x)', '${x}', '$x', '{a,b}', '{1..2}', '[x]', "'x'", '"x"', '~x', 'x~', '*x*', '!!', '!x', '#x', 'x#y', 'a b', ' x', 'x ',
                   '-x', 'x=y', 'x|y', 'x&y', 'x;y', 'x>y', 'x<y', '(x)', 'x\\y', '\\x', 'x\\', '$$', '$?', 'é`x`', "`x`'", '"`x`', '$(x)"', "it's",
                   'a"b\'c', "`x`'\"", '$x\'"']
+    # (a directory completed inside an open quote leaves the quote open for the next path component: pressing Enter right
+    #  away is not a use of the completed text; those contexts are covered by the in-process layer, which closes the quote)
     for ctx in ('U', 'S', 'D', 'C'):
         add(ctx, names1)
         add(ctx, structured)
@@ -227,9 +229,9 @@ def run(rep, tier):
                 rep.machinery.append(str(info))
             else:
                 rep.outcome('deviation:' + kind)
-                ctxname = {'U': 'unquoted', 'S': 'single-quote', 'D': 'double-quote', 'C': 'cd'}[ctx]
+                ctxname = {'U': 'unquoted', 'S': 'single-quote', 'D': 'double-quote', 'C': 'cd', 'CS': 'cd-single-quote', 'CD': 'cd-double-quote'}[ctx]
                 locs = '' if loc == 0 else ':in-' + LOCS[loc][0]
-                rep.violation('%s:%s%s:[%s]' % (kind, ctxname, locs, name_class(name)), {'context': ctxname, 'location': LOCS[loc][0], 'entry_name': 'PREFIX' + name, 'typed': ('cd ' if ctx == 'C' else 'vh-argv ' + CTX.get(ctx, '')) + LOCS[loc][1] + 'PREFIX<TAB><Enter>'},
+                rep.violation('%s:%s%s:[%s]' % (kind, ctxname, locs, name_class(name)), {'context': ctxname, 'location': LOCS[loc][0], 'entry_name': 'PREFIX' + name, 'typed': ('cd ' if ctx in ('C', 'CS', 'CD') else 'vh-argv ') + CTX.get(ctx, '') + LOCS[loc][1] + 'PREFIX<TAB><Enter>'},
                               {'argv': ['PREFIX' + name]}, info, repro='create the entry, type the prefix after `vh-argv %s`, press TAB and Enter in an interactive cicada' % CTX.get(ctx, ''))
     for cmd, typed, missing, extra, shown in common.pmap(run_candidates, [0], chunk=1)[0]:
         rep.evaluations += 1
@@ -269,7 +271,7 @@ def run(rep, tier):
 def replay(rec):
     """complete the recorded entry once more in a fresh interactive session"""
     c = rec['case']
-    ctx = {'unquoted': 'U', 'single-quote': 'S', 'double-quote': 'D', 'cd': 'C'}[c['context']]
+    ctx = {'unquoted': 'U', 'single-quote': 'S', 'double-quote': 'D', 'cd': 'C', 'cd-single-quote': 'CS', 'cd-double-quote': 'CD'}[c['context']]
     loc = [l[0] for l in LOCS].index(c.get('location', 'cwd'))
     name = c['entry_name'][len('PREFIX'):]
     res = _run_batch((ctx, [name], loc))
